@@ -88,6 +88,9 @@ pub struct CCase {
     pub strategy: u8,
     pub active_redirection: bool,
     pub ops: Vec<(bool, COp)>, // (enter through proxy B?, op)
+    /// max_redirections of both proxies when active redirection is on (0 = default 4)
+    #[serde(default)]
+    pub max_redirections: u8,
 }
 
 fn op() -> impl Strategy<Value = COp> {
@@ -107,8 +110,8 @@ fn op() -> impl Strategy<Value = COp> {
 }
 
 pub fn strategy() -> impl Strategy<Value = CCase> {
-    (prop_oneof![1 => Just(0u8), 2 => Just(1u8), 2 => Just(2u8)], prop::bool::weighted(0.3), prop::collection::vec((any::<bool>(), op()), 1..25))
-        .prop_map(|(strategy, active_redirection, ops)| CCase { strategy, active_redirection, ops })
+    (prop_oneof![1 => Just(0u8), 2 => Just(1u8), 2 => Just(2u8)], prop::bool::weighted(0.3), prop::collection::vec((any::<bool>(), op()), 1..25), 2u8..=4)
+        .prop_map(|(strategy, active_redirection, ops, max_redirections)| CCase { strategy, active_redirection, ops, max_redirections })
 }
 
 const PA: &str = "127.0.0.1:6000";
@@ -144,7 +147,7 @@ async fn set_cluster(world: &World, proxy: &str, local: (&str, usize, usize), pe
 
 async fn run(case: &CCase, obs: &mut Obs) -> Result<(), Fail> {
     let world = World::new();
-    let opts = ProxyOpts { active_redirection: case.active_redirection, ..ProxyOpts::default() };
+    let opts = ProxyOpts { active_redirection: case.active_redirection, max_redirections: case.max_redirections, ..ProxyOpts::default() };
     world.net.add_proxy(PA, &opts);
     world.net.add_proxy(PB, &opts);
     let ra = world.net.add_redis(RA, 1);
@@ -164,7 +167,7 @@ async fn run(case: &CCase, obs: &mut Obs) -> Result<(), Fail> {
     set_cluster(&world, PB, (RB, split + 1, 16383), (PA, 0, split), &cfg).await?;
     obs.class(format!("strategy:{}", ["disabled", "set_get_only", "allow_all"][case.strategy as usize]));
     if case.active_redirection {
-        obs.class("active-redirection");
+        obs.class(format!("active-redirection:max_redirections={}", if case.max_redirections == 0 { 4 } else { case.max_redirections }));
     }
     let enabled = case.strategy != 0;
 
